@@ -20,18 +20,21 @@ def dump_ram(P, pdir, args=(), env=None, tag="ram"):
         return None, None, "souffle --show=transformed-ram failed rc=%s: %s" % (rc, err[-500:])
     return fin, ini, None
 
-def record_trace(P, dl, case, rundir, args=(), env=None):
+def record_trace(P, dl, case, rundir, args=(), env=None, exe=None):
     facts = os.path.join(rundir, "facts"); out = os.path.join(rundir, "out")
     render.write_facts(P, case["edb"], facts); os.makedirs(out, exist_ok=True)
     tf = os.path.join(rundir, "trace.ndjson")
     if os.path.exists(tf):
         os.remove(tf)
     e = dict(env or {}); e["SOUFFLE_VERIF_TRACE"] = tf
-    rc, so, se = run([build.SOUFFLE, "-F", facts, "-D", out] + list(args) + [dl], env=e, timeout=120)
+    if exe:
+        rc, so, se = run([exe, "-F", facts, "-D", out] + list(args), env=e, timeout=120)
+    else:
+        rc, so, se = run([build.SOUFFLE, "-F", facts, "-D", out] + list(args) + [dl], env=e, timeout=120)
     if rc != 0 or not os.path.exists(tf):
         return None, "traced run failed rc=%s: %s" % (rc, se[-400:])
     evs = []
-    started = False
+    started = exe is not None      # generated code has no driver phases: every line is a statement event
     for line in open(tf):
         ev = json.loads(line)
         if ev.get("e") == "Phase":
@@ -64,7 +67,7 @@ def check(P, cases, wd, label, res, pid, args=("-j1",), env=None, which="final",
         return {"status": "no-cases"}
     d = os.path.join(pdir, tag + "_A")
     write_data(d, "RamData", {"RamProg": RP, "RamEDBs": [edb_value(c) for c in usable],
-                              "RamExpect": [{"have": True, "m": c["model"]} for c in usable], "RamTraces": [], "RamOrders": list(orders),
+                              "RamExpect": [{"have": True, "m": c["model"]} for c in usable], "RamTraces": [], "RamOrders": list(orders), "RamClearPolicy": "interp", "RamStored": ramjson.stored_relations(RP),
                               "RamSN": [sn(c, RP) if sn else {"have": False, "loops": {}, "att": {}} for c in usable]})
     cfg = os.path.join(d, "A.cfg")
     with open(cfg, "w") as f:
@@ -94,7 +97,7 @@ def check(P, cases, wd, label, res, pid, args=("-j1",), env=None, which="final",
         if traces:
             dt = os.path.join(pdir, tag + "_T")
             write_data(dt, "RamData", {"RamProg": RP, "RamEDBs": [edb_value(c) for c in kept],
-                                       "RamExpect": [{"have": True, "m": c["model"]} for c in kept], "RamTraces": traces, "RamOrders": [[]],
+                                       "RamExpect": [{"have": True, "m": c["model"]} for c in kept], "RamTraces": traces, "RamOrders": [[]], "RamClearPolicy": "interp", "RamStored": ramjson.stored_relations(RP),
                                        "RamSN": [{"have": False, "loops": {}, "att": {}} for c in kept]})
             cfg = os.path.join(dt, "T.cfg")
             with open(cfg, "w") as f:
@@ -122,3 +125,66 @@ def check(P, cases, wd, label, res, pid, args=("-j1",), env=None, which="final",
                         res.violations.append(("[%s trace] the interpreter's statement trace of %s on EDB %s is not a behaviour of spec/Ram.tla "
                                                "(statement order, EXIT decisions or relation sizes differ)" % (tag, P["id"], kept[k]["edb"]), path))
     return st
+
+
+def check_compiled(P, cases, wd, label, res, pid, n_traces=4, rng=None, tag="compiled"):
+    """T for the second back-end (hook H6): the generated C++ writes the same statement events; the trace of the compiled
+    executable (-j1) is validated against spec/Ram.tla executing the same RAM program, with the generated code's CLEAR
+    policy (stored relations are not cleared)."""
+    pdir = os.path.join(wd, label); os.makedirs(pdir, exist_ok=True)
+    dl = os.path.join(pdir, tag + ".dl")
+    with open(dl, "w") as f:
+        f.write(render.program(P))
+    fin = os.path.join(pdir, tag + "_final.json"); exe = os.path.join(pdir, tag + ".exe")
+    rc, out, err = run([build.SOUFFLE, "-j1", "-o", exe, dl], env={"SOUFFLE_VERIF_RAM_FINAL": fin}, timeout=900)
+    if rc != 0 or not os.path.exists(exe) or not os.path.exists(fin):
+        from . import evalcore
+        if not evalcore.known_crash(res, pid, err):
+            res.violations.append(("[%s] compiling %s failed rc=%s: %s" % (tag, P["id"], rc, err[-500:]), dl))
+        return {"status": "compile-failed"}
+    try:
+        RP = ramjson.convert(fin)
+    except ramjson.Unsupported as e:
+        res.count("ram_programs_outside_Ram_tla")
+        return {"status": "unsupported", "why": str(e)}
+    usable = [c for c in cases if not c["oob"]]
+    sample = usable if len(usable) <= n_traces else (rng.sample(usable, n_traces) if rng else usable[:n_traces])
+    traces = []; kept = []
+    for k, c in enumerate(sample):
+        evs, e2 = record_trace(P, dl, c, os.path.join(pdir, "%s_t%d" % (tag, k)), args=("-j1",), exe=exe)
+        if e2:
+            res.violations.append(("[%s trace] %s program=%s" % (tag, e2, P["id"]), os.path.join(pdir, "%s_t%d" % (tag, k)))); continue
+        traces.append(evs); kept.append(c)
+    if not traces:
+        return {"status": "no-traces"}
+    dt = os.path.join(pdir, tag + "_T")
+    write_data(dt, "RamData", {"RamProg": RP, "RamEDBs": [edb_value(c) for c in kept],
+                               "RamExpect": [{"have": True, "m": c["model"]} for c in kept], "RamTraces": traces, "RamOrders": [[]],
+                               "RamClearPolicy": "compiled", "RamStored": ramjson.stored_relations(RP),
+                               "RamSN": [{"have": False, "loops": {}, "att": {}} for c in kept]})
+    cfg = os.path.join(dt, "T.cfg")
+    with open(cfg, "w") as f:
+        f.write("SPECIFICATION TSpec\nINVARIANT TraceInvariants\nCHECK_DEADLOCK FALSE\n")
+    r = tlc.run_tlc(os.path.join(SPEC, "RamTrace.tla"), cfg, dt, lib=dt, workers=1, timeout=600)
+    acc = set()
+    for line in r["out"].splitlines():
+        if line.startswith('<<"ACCEPT"'):
+            acc.add(int(line.split(",")[1].strip(" >")))
+    if r["violated"]:
+        path = os.path.join(dt, "tlc.out"); open(path, "w").write(r["out"])
+        res.violations.append(("[%s trace] a run of the compiled executable of %s violates %s (spec/RamTrace.tla on the recorded trace)"
+                               % (tag, P["id"], r["violated"]), path))
+        return {"status": "violated"}
+    if not r["ok"]:
+        res.infra_errors.append("RamTrace.tla (compiled) on %s: %s" % (P["id"], (r["error"] or "")[-600:]))
+        return {"status": "infra"}
+    res.add_tlc(r)
+    for k in range(len(traces)):
+        if (k + 1) in acc:
+            res.cov["traces_validated_against_impl"] += 1; res.count("compiled_traces_validated")
+        else:
+            path = os.path.join(dt, "rejected_%d.json" % k)
+            json.dump({"program": P["id"], "dl": dl, "edb": kept[k]["edb"], "trace": traces[k]}, open(path, "w"), indent=1)
+            res.violations.append(("[%s trace] the statement trace of the compiled executable of %s on EDB %s is not a behaviour of spec/Ram.tla"
+                                   % (tag, P["id"], kept[k]["edb"]), path))
+    return {"status": "ok"}
